@@ -554,6 +554,15 @@ func RebuildBisyncFrontier(snapshot *BisyncFrontierSnapshot, records []*BisyncCo
 		if !ok {
 			break
 		}
+		if record.EndOffset < rebuild.Offset {
+			// The unit behind the frontier cannot lie in front of the frontier's offset: this record
+			// was left by an earlier life that numbered its units differently (a start that fell back
+			// to the root checkpoint begins at seq 1 again while the snapshot phase of the first
+			// life had consumed sequence numbers). It does not continue the frontier; stop in front
+			// of it so that the resume point never moves backwards. The next unit committed under
+			// this sequence number overwrites it.
+			break
+		}
 		rebuild.RunID = record.RunID
 		rebuild.UnitSeq = record.UnitSeq
 		rebuild.Offset = record.EndOffset
